@@ -12,14 +12,15 @@ from ..lib import SweepOut
 class C09(Prop):
     ID = "C09"
     RULE = ("trees from the C04/C05 generators (arbitrary string bytes, all number classes incl. non-finite, empty and nested "
-            "containers, both formats); for each tree and format EVERY buffer length n from 0 to L+16 (L = length of the text of the "
+            "containers, both formats), handed over plain or as an item with ownership flags at the root (former constant-key member, reference node, "
+            "stale key) or inside; for each tree and format EVERY buffer length n from 0 to L+16 (L = length of the text of the "
             "allocating printer) is tried twice: in an exact-size heap block (ASan redzones) and in a buffer whose byte n lies on a "
             "PROT_NONE page with canaries in front. Oracle: no fault/report, canaries intact, true => buffer holds exactly text+terminator "
             "and n >= L+1, false for every n <= L, true for every n >= L+1+5, success monotone in n. evaluations counts trees; "
             "inner_iterations counts PrintPreallocated calls. non-trivial = (tree, fmt, n) with |n-(L+1)| <= 8, counted in C "
             "(distinct by construction per tree: each n is visited once); distinct trees by hash")
     ASSUMPTIONS = ["writes beyond the canary zone in front of the buffer would only be seen by ASan on the heap placement"]
-    REQUIRED_CLASSES = ["formatted_nested", "string_with_escapes", "number_17_digits", "depth>=10", "empty_raw", "truthy_format_flag"]
+    REQUIRED_CLASSES = ["formatted_nested", "string_with_escapes", "number_17_digits", "depth>=10", "empty_raw", "truthy_format_flag", "root_with_ownership_flags"]
 
     def budget(self, tier):
         return {"workers": 12, "examples": 700 if tier == "quick" else 20000}
@@ -36,11 +37,18 @@ class C09(Prop):
                          gens.shaped_documents(leaves, keys, max_leaves=4),
                          leaves,
                          st.lists(leaves, min_size=20, max_size=60).map(lambda l: ["A", l]))
-        return st.fixed_dictionaries({"jv": tree})
+        return st.fixed_dictionaries({"jv": tree, "root": st.sampled_from(printing.ROOT_VARIANTS), "rseed": st.integers(0, 2 ** 31)})
 
     def run_case(self, lib, case, stats):
         jv = case["jv"]
-        tree = printing.build_tree(lib, jv)
+        import random
+        variant = case.get("root", "plain")
+        if any(n[0] == "S" and b"\x00" in n[1] for n in model.walk_jv(jv)):
+            variant = "plain"
+        rv = printing.RootVariant(lib, jv, variant, random.Random(case.get("rseed", 0)))
+        tree = rv.root
+        if variant != "plain":
+            stats.cls("root_with_ownership_flags")
         try:
             depth = model.depth_of(jv)
             if depth >= 2:
@@ -75,7 +83,7 @@ class C09(Prop):
             if stats.nontriv(jv, {"tree": jv, "text_len": len(expect)}):
                 stats.cls("boundary_calls", total_nt)
         finally:
-            lib.cJSON_Delete(tree)
+            rv.close()
         if lib.ledger_live() != 0:
             raise Violation("PrintPreallocated allocated memory that outlives the call", key="leak")
 
